@@ -10,9 +10,19 @@ _real = {n: getattr(_time, n) for n in _NAMES}
 
 
 class FakeClock:
-    def __init__(self, start: float = 1_700_000_000.0):
-        self.now = start
+    def __init__(self, start: float = 1_700_000_000.0, source=None):
+        self._now = start
+        self._source = source  # optional callable giving seconds since start (e.g. a virtual event loop's time())
+        self._start = start
         self._patched = []
+
+    @property
+    def now(self):
+        return self._start + self._source() if self._source is not None else self._now
+
+    @now.setter
+    def now(self, v):
+        self._now = v
 
     def advance(self, seconds: float):
         self.now += seconds
